@@ -65,6 +65,19 @@ func matchDOM(docRoot *html.Node, root *Node) (map[*html.Node]*Node, error) {
 		if id != fmt.Sprintf("n%d", n.ID) {
 			return fmt.Errorf("DOM element <%s id=%q> where id n%d was generated", d.Data, id, n.ID)
 		}
+		for k, v := range n.Attrs {
+			// (the span attribute family carries white space, signs, non-ASCII characters: the oracle
+			// reads the generator's value, which must be the one the parser handed to webrender)
+			got, found := "", false
+			for _, a := range d.Attr {
+				if a.Key == k {
+					got, found = a.Val, true
+				}
+			}
+			if !found || got != v {
+				return fmt.Errorf("attribute %s of n%d is %q in the DOM, %q generated", k, n.ID, got, v)
+			}
+		}
 		m[d] = n
 		var kids []*html.Node
 		for c := d.FirstChild; c != nil; c = c.NextSibling {
